@@ -123,6 +123,8 @@ func lastStore(p *dtPath, suffix string) (string, bool) {
 func q(s string) string { return constant.MakeString(s).ExactString() }
 
 func runC09(c *Ctx, r *Report) {
+	importFoundation(c, r, "C09", "search-window")
+	importFoundation(c, r, "C09", "transport-pipe")
 	importFoundation(c, r, "C09", "driver-options")
 	r.Rule("C09/password-prompt-anchored", "the built-in pattern that decides when the login password is typed matches only where the prompt ends a line", 1)
 	checkPasswordPromptAnchored(c, r, "C09/password-prompt-anchored")
